@@ -3,7 +3,7 @@
    expected inbound number never moves backwards except through a store reset, for every event list (from C01).
    The reset-on-Logon clauses and the initiator connect frame are evaluated on every trace by c07_check (`_partial`). *)
 From Coq Require Import ZArith List Bool.
-From QF Require Import Base.Bytes Session.Types Session.Model Session.Spec Session.LocalProofs Session.C01Proofs.
+From QF Require Import Base.Bytes Session.Types Session.Model Session.Spec Session.LocalProofs Session.C01Proofs Session.FrameProofs Session.TraceProofs.
 Import ListNotations.
 Open Scope Z_scope.
 
@@ -33,3 +33,14 @@ Proof. exact acceptor_connect_keeps_store. Qed.
 Theorem c07_expected_number_forward_only : forall (c : cfg) (es : list event),
   c01_check (map obs_of (run_trace es (init_sess c))) = [].
 Proof. exact c01_model_ok. Qed.
+
+(* TRACE LEVEL.  For every configuration and every event list the disconnect clauses of c07_check (701: without
+   ResetOnDisconnect a lost connection changes neither counter and resets nothing; 706: with it both counters are 1
+   afterwards) never fail on the model's trace. *)
+Theorem c07_disconnect_clauses_hold_on_every_trace : forall c es,
+  free_of [701; 706] (c07_check c (combine es (map obs_of (run_trace es (init_sess c))))) = true.
+Proof. exact c07_disconnect_never_fails. Qed.
+
+(* the configuration of a session never changes *)
+Theorem c07_configuration_constant : forall c0 s e, s_cfg s = c0 -> s_cfg (step s e) = c0.
+Proof. exact step_cfg. Qed.
